@@ -385,6 +385,13 @@ def havoc(ex, st, v, name, mutated):
 # attribute / subscript / store / unpack / method
 
 def attribute(ex, st, v, attr, node):
+    if isinstance(v, VRec):                      # `self.<attr>`: the object is a record of its attributes / cached properties
+        if attr not in v.fields:
+            raise Unsupported(f'attribute .{attr} of the object is not part of the contract case (line {node.lineno})')
+        out = v.fields[attr]
+        if isinstance(out, VArr):
+            out.shared = True
+        return out
     if isinstance(v, VNd) and attr == 'shape':
         return v.shape_ref
     if isinstance(v, VArr):
@@ -650,6 +657,21 @@ def store(ex, st, base, sl_, v, node, base_node):
 
 def arr_setitem(ex, st, b, sl_, v, node):
     """Functional form of `A[idx] = v` for the patterns that have a denotation; None -> fall back to `store`."""
+    if isinstance(b, VArr) and b.ndim == 3 and b.tag == 'core' and b.t is not None and isinstance(sl_, ast.Tuple) \
+            and len(sl_.elts) == 3 and not isinstance(sl_.elts[0], ast.Slice) and not isinstance(sl_.elts[2], ast.Slice) \
+            and isinstance(sl_.elts[1], ast.Slice) and sl_.elts[1].lower is None and sl_.elts[1].upper is None and sl_.elts[1].step is None:
+        a0 = norm_index(ex, st, ex.need_num(st, ex.ev(sl_.elts[0], st), node), b.shape[0], node, 'row-index')
+        b0 = norm_index(ex, st, ex.need_num(st, ex.ev(sl_.elts[2], st), node), b.shape[2], node, 'col-index')
+        val = st.deref(v)
+        used('G[a, :, b] = w (scalar or vector of length n) -> cput(G, a, b, w)')
+        if isinstance(val, VArr) and val.ndim == 1 and val.t is not None and val.tag == 'rvec':
+            ex.oblige(st, 'call-pre', 'fibre-assignment-length-matches', Z(val.shape[0]) == Z(b.shape[1]), node)
+            w = val.t
+        elif is_num(val):
+            w = z3.K(z3.IntSort(), to_real(val))
+        else:
+            raise Unsupported('fibre assignment of this value')
+        return VArr(b.shape, T.cput(b.t, Z(a0), Z(b0), w), 'core')
     if isinstance(b, VArr) and b.ndim == 3 and b.tag == 'core' and b.t is not None and isinstance(sl_, ast.Tuple) \
             and len(sl_.elts) == 3 and not any(isinstance(e, ast.Slice) for e in sl_.elts):
         i0 = ex.ev(sl_.elts[0], st)
